@@ -61,14 +61,21 @@ OPS = [
 
 
 def sh(cmd, cwd=None, timeout=None, env=None):
+    import signal
     e = dict(os.environ, CARGO_NET_OFFLINE='true')
     if env:
         e.update(env)
+    p = subprocess.Popen(cmd, shell=True, cwd=cwd, stdout=subprocess.PIPE, stderr=subprocess.STDOUT, text=True, env=e, start_new_session=True)
     try:
-        p = subprocess.run(cmd, shell=True, cwd=cwd, capture_output=True, text=True, timeout=timeout, env=e)
-        return p.returncode, p.stdout + p.stderr
-    except subprocess.TimeoutExpired as t:
-        return 124, 'TIMEOUT ' + str(t)
+        out, _ = p.communicate(timeout=timeout)
+        return p.returncode, out
+    except subprocess.TimeoutExpired:
+        try:
+            os.killpg(p.pid, signal.SIGKILL)
+        except Exception:
+            pass
+        out, _ = p.communicate()
+        return 124, 'TIMEOUT\n' + (out or '')
 
 
 def setup():
@@ -152,7 +159,7 @@ def run(every, offset, limit, log):
         t0 = time.time()
         rec = dict(m, id=mid, caught_by=[])
         try:
-            rc, out = sh('cargo test --workspace --no-fail-fast --offline 2>&1', cwd=REPO, timeout=1500, env={'CARGO_TARGET_DIR': MUT + '/rtarget'})
+            rc, out = sh('cargo test --workspace --no-fail-fast --offline 2>&1', cwd=REPO, timeout=420, env={'CARGO_TARGET_DIR': MUT + '/rtarget'})
             if 'error[' in out or 'error: could not compile' in out:
                 rec['outcome'] = 'no-compile'
             elif rc != 0:
@@ -164,7 +171,7 @@ def run(every, offset, limit, log):
                 else:
                     for i in range(1, 21):
                         cid = 'C%02d' % i
-                        rc, out = sh('%s/vtarget/release/verif %s --tier quick 2>&1 | tail -2' % (MUT, cid), cwd=VER, timeout=900, env={'VERIF_ROOT': VER})
+                        rc, out = sh('%s/vtarget/release/verif %s --tier quick 2>&1 | tail -2' % (MUT, cid), cwd=VER, timeout=400, env={'VERIF_ROOT': VER})
                         if 'VIOLATION' in out or rc == 1 or 'violations=0' not in out:
                             rec['caught_by'].append(cid)
                     rec['outcome'] = 'caught' if rec['caught_by'] else 'SURVIVED'
